@@ -24,6 +24,12 @@ Judge(L) ==
      IF L.outcome # "OK" THEN "outcome_" \o L.outcome
      ELSE IF L.dev_milli > 1000 THEN "operator_is_not_the_weighted_sum_of_x_times_convolutions"
      ELSE "ok"
+  ELSE IF L.what = "masses" THEN
+     \* the NC heavy-quark classes of a fixed-flavour cell (pair production and the heavy-quark loop on light lines) are built
+     \* once per massive quark, each with THAT quark's mass: 6 - NfFF distinct masses, all of them masses of the theory
+     IF ~L.all_theory_masses THEN "kernel_built_with_a_mass_that_is_no_quark_mass_of_the_theory"
+     ELSE IF L.fns = "FFNS" /\ L.proc = "NC" /\ L.flav = "total" /\ L.distinct # 6 - L.nfff THEN "heavy_quark_class_not_built_with_one_mass_per_massive_quark"
+     ELSE "ok"
   ELSE IF L.what = "finite" THEN (IF L.finite THEN "ok" ELSE "non_finite_operator")
   ELSE "unknown_line"
 VARIABLE l
